@@ -3,7 +3,7 @@ import re
 
 from report import Rule
 from astlib import find_all, find_first, show, show_pat, quotes_in, tok_text, method_chain, callee_path
-from rules.common import flat, flatp, has, same
+from rules.common import flat, flatp, has, same, xquotes
 
 EXPLANATION = (
     "Static structural analysis (syntax facts of the two code generators, the t! family and the run-time wrappers); "
@@ -58,7 +58,7 @@ def r1_siblings(ctx):
     else:
         def arm_heads(fn):
             heads = []
-            for q in quotes_in(fn.body):
+            for q in xquotes(fn.body):
                 t = flat(tok_text(q["tokens"]))
                 m = re.match(r"^(#enum_ident::#locale_key(?:\(#translations_key\))?(?:#defaulted)?)=>", t)
                 if m:
@@ -115,8 +115,8 @@ def r1_siblings(ctx):
             r.inst("ranges %s: selection" % kind, "both select with %s and render the branch's own value" % fn_[:-5])
         else:
             r.viol("R1:ranges-%s#selection" % kind, "the two generators do not select branches with the same function", file=MR)
-        qa = [flat(tok_text(q["tokens"])) for q in quotes_in(fa.body)]
-        qb = [flat(tok_text(q["tokens"])) for q in quotes_in(fb.body)]
+        qa = [flat(tok_text(q["tokens"])) for q in xquotes(fa.body)]
+        qb = [flat(tok_text(q["tokens"])) for q in xquotes(fb.body)]
         if kind == "int":
             ok = any("match#count_key(){#(#match_arms,)*}" in q for q in qa) and any("match*#count_key{#(#match_arms,)*}" in q for q in qb) and "#range=>{#ts}" in qa and "#range=>#value" in qb
         else:
@@ -137,8 +137,8 @@ def r1_siblings(ctx):
             r.inst("plurals: iteration", "this.forms.iter().map in both")
         else:
             r.viol("R1:plurals#iteration", "forms are walked differently: %s vs %s" % (ca, cb), file=MP)
-        qa = [flat(tok_text(q["tokens"])) for q in quotes_in(fa[0].body)]
-        qb = [flat(tok_text(q["tokens"])) for q in quotes_in(fb[0].body)]
+        qa = [flat(tok_text(q["tokens"])) for q in xquotes(fa[0].body)]
+        qb = [flat(tok_text(q["tokens"])) for q in xquotes(fb[0].body)]
         if any("{#(#match_arms,)*_=>#other,}" in q for q in qa) and any("{#(#match_arms,)*_=>#other,}" in q for q in qb):
             r.inst("plurals: fallback", "`_ => #other` in both")
         else:
@@ -157,7 +157,7 @@ def r1_siblings(ctx):
             for a2 in m["arms"]:
                 variant = show_pat(a2["pat"]).split("(")[0].split("::")[-1]
                 opts = re.findall(r"\b(\w+)\b", show_pat(a2["pat"]).split("(", 1)[1]) if "(" in show_pat(a2["pat"]) else []
-                qs = [tok_text(q["tokens"]) for q in quotes_in(a2["body"])]
+                qs = [tok_text(q["tokens"]) for q in xquotes(a2["body"])]
                 fam = None
                 args = []
                 if qs:
@@ -190,7 +190,7 @@ def r2_output_table(ctx):
         m = find_first(fn.body, "Match")
         got = {}
         for a in m["arms"]:
-            qs = [flat(tok_text(q["tokens"])) for q in quotes_in(a["body"])]
+            qs = [flat(tok_text(q["tokens"])) for q in xquotes(a["body"])]
             got[show_pat(a["pat"]).split("::")[-1]] = qs
         want = {"View": ["builder", "build().into_view"], "String": ["display_builder", "build_string"], "Display": ["display_builder", "build_display"]}
         for k, w in want.items():
@@ -240,7 +240,7 @@ def r3_input_table(ctx):
         r.missing("InputType::get_key")
     else:
         m = find_first(fn.body, "Match")
-        got = {show_pat(a["pat"]).split("::")[-1]: [flat(tok_text(q["tokens"])) for q in quotes_in(a["body"])] for a in m["arms"]}
+        got = {show_pat(a["pat"]).split("::")[-1]: [flat(tok_text(q["tokens"])) for q in xquotes(a["body"])] for a in m["arms"]}
         want = {"Context": ["leptos_i18n::I18nContext::get_keys(#input).#keys()"], "Untracked": ["leptos_i18n::I18nContext::get_keys_untracked(#input).#keys()"], "Locale": ["leptos_i18n::Locale::get_keys(#input).#keys()"]}
         for k, w in want.items():
             if got.get(k) == w:
@@ -264,7 +264,7 @@ def r3_input_table(ctx):
             "scope_locale_inner": "{leptos_i18n::__private::scope_locale_util(#locale,|_k|_k.#keys())}"}
     for name, w in want.items():
         fn = ast.fn(sc, name)
-        qs = [flat(tok_text(q["tokens"])) for q in quotes_in(fn.body)] if fn else []
+        qs = [flat(tok_text(q["tokens"])) for q in xquotes(fn.body)] if fn else []
         if qs == [w]:
             r.inst(name, w)
         else:
